@@ -93,9 +93,11 @@ def ensure_streams(app: appboot.App):
     # syn9: a stream with *stored defaults* (Stream.defaults: depth, leeway, update period and an explicit
     # availabilityStartTime) – the manifest request and every media request must resolve them the same way
     # although the media URLs do not repeat them; one very long and one short interior segment
-    v = mp4synth.make_track("video", 1000, [2000, 12000, 1000, 3000], samples_per_segment=4, seed=91, track_id=1)
+    # (the stored fragments are numbered with gaps – 1,4,7,10 and 1,3,5,7 – as a de-multiplexed file has them)
+    v = mp4synth.make_track("video", 1000, [2000, 12000, 1000, 3000], samples_per_segment=4, seed=91, track_id=1,
+                            seq_step=3)
     a = mp4synth.make_track("audio", 48000, [96256, 575488, 48128, 144384], samples_per_segment=[94, 562, 47, 141],
-                            seed=92, track_id=2, sample_durations_in="trun")
+                            seed=92, track_id=2, sample_durations_in="trun", seq_step=2)
     mp4synth.register(app, "syn9", "Synthetic with stream defaults", {"syn9_v1": v, "syn9_a1": a}, timing_from="syn9_v1")
     with app.ctx() as models:
         st = models.Stream.get(directory="syn9")
